@@ -17,9 +17,13 @@ structure ResInv (s : State) : Prop where
     (m, v) ∈ s.completed ∧ getOwner s.owner m = some c
   fresh : ∀ m c, getOwner s.owner m = some c → m < s.counter
 
-theorem resInv_init : ResInv init :=
-  ⟨fun _ _ _ h => by cases h, fun _ _ _ _ h => by cases h, fun _ _ h => by cases h,
-   fun _ _ _ h => by cases h, fun _ _ _ h => by cases h, fun _ _ h => by cases h⟩
+theorem resInv_init : ResInv init where
+  ob := fun _ _ _ h => by simp [init] at h
+  oq := fun _ _ _ _ h => by simp [init] at h
+  bx := fun _ _ h => by simp [init] at h
+  tc := fun _ _ _ h => by simp [init] at h
+  cl := fun _ _ _ h => by simp [init] at h
+  fresh := fun _ _ h => by simp [init, getOwner] at h
 
 /-- `s'` holds no RESULT that `s` does not hold (same owners, same counter, at least the
 same completions) -/
@@ -126,10 +130,14 @@ theorem resSub_shutdownNode (t : Topo) (s : State) (p : Nat) : ResSub s (shutdow
     (resSub_finishShutdown _ p)
 
 theorem resSub_systemError (t : Topo) (s : State) (p : Nat) : ResSub s (systemError t s p) := by
+  have key : ∀ s1 : State, ResSub s s1 →
+      ResSub s (shutdownNode t { s1 with syslog := upd s1.syslog p (s1.syslog p + 1) } p) :=
+    fun s1 h1 => h1.trans ((ResSub.of_eq rfl rfl rfl rfl rfl rfl rfl rfl :
+      ResSub s1 { s1 with syslog := upd s1.syslog p (s1.syslog p + 1) }).trans (resSub_shutdownNode t _ p))
   unfold systemError
+  refine key _ ?_
   split
-  · refine ResSub.trans ?_ (resSub_shutdownNode t _ p)
-    refine ⟨fun _ _ _ x => x, fun _ _ _ _ x => x, fun m b x => ⟨b, x, rfl, fun _ y => y⟩,
+  · refine ⟨fun _ _ _ x => x, fun _ _ _ _ x => x, fun m b x => ⟨b, x, rfl, fun _ y => y⟩,
       fun c m v x => ?_, fun _ _ _ x => x, fun _ x => x, rfl, rfl⟩
     simp only at x
     split at x
@@ -138,8 +146,7 @@ theorem resSub_systemError (t : Topo) (s : State) (p : Nat) : ResSub s (systemEr
       · cases y
     · exact x
   · split
-    · refine ResSub.trans ?_ (resSub_shutdownNode t _ p)
-      refine ⟨fun i m v x => ?_, fun _ _ _ _ x => x, fun m b x => ⟨b, x, rfl, fun _ y => y⟩,
+    · refine ⟨fun i m v x => ?_, fun _ _ _ _ x => x, fun m b x => ⟨b, x, rfl, fun _ y => y⟩,
         fun _ _ _ x => x, fun _ _ _ x => x, fun _ x => x, rfl, rfl⟩
       simp only [upd_apply] at x
       split at x
@@ -148,7 +155,7 @@ theorem resSub_systemError (t : Topo) (s : State) (p : Nat) : ResSub s (systemEr
         · exact y
         · cases y
       · exact x
-    · exact (ResSub.of_eq rfl rfl rfl rfl rfl rfl rfl rfl).trans (resSub_shutdownNode t _ p)
+    · exact ResSub.refl s
 
 /-- putting items that are not client-bound results -/
 theorem resSub_put (s : State) (p : Nat) (items : List (Dest × Msg))
@@ -313,5 +320,325 @@ theorem recvAll_returned : ∀ (l : List Msg) (tr : Option Msg) (eof : Bool) (r 
          · first
            | exact Or.inr y
            | (simp only [Option.some.injEq] at y; subst y; exact Or.inl List.mem_cons_self))
+
+theorem resSub_fields {s s' : State} (h1 : s'.outbox = s.outbox) (h2 : s'.outq = s.outq)
+    (h3 : s'.boxes = s.boxes) (h4 : s'.toClient = s.toClient) (h5 : s'.clog = s.clog)
+    (h6 : s'.completed = s.completed) (h7 : s'.owner = s.owner) (h8 : s'.counter = s.counter) :
+    ResSub s s' := ResSub.of_eq h1 h2 h3 h4 h5 h6 h7 h8
+
+/-- every transition keeps `ResInv` -/
+theorem step_resInv {t : Topo} {s s' : State} {l : Label} (hi : ResInv s)
+    (h : step t s l = some s') : ResInv s' := by
+  cases l with
+  | crash n tr =>
+    simp only [step, crash] at h
+    split at h
+    · cases h
+    split at h <;> cases h
+    · refine hi.sub ⟨fun i m v x => ?_, fun _ _ _ _ x => x, fun m b x => ⟨b, x, rfl, fun _ y => y⟩,
+        fun _ _ _ x => x, fun _ _ _ x => x, fun _ x => x, rfl, rfl⟩
+      simp only [upd_apply] at x
+      split at x
+      · rename_i hi'; subst hi'
+        rcases result_mem_append_single x with y | y
+        · exact y
+        · cases y
+      · exact x
+    · exact hi.sub (ResSub.of_eq rfl rfl rfl rfl rfl rfl rfl rfl)
+  | recvEmp p e em f =>
+    simp only [step] at h
+    unfold recvEmp at h
+    split at h
+    · cases h
+    rename_i hg
+    simp only [Bool.not_eq_true', Bool.not_eq_false, Bool.and_eq_true] at hg
+    have hem := hg.2
+    split at h
+    · split at h
+      · cases h
+      split at h
+      · cases h
+        exact hi.sub (((ResSub.of_eq rfl rfl rfl rfl rfl rfl rfl rfl :
+          ResSub s { s with downOpen := upd s.downOpen e false }).trans (resSub_shutdownNode t _ p)).trans
+          (ResSub.of_eq rfl rfl rfl rfl rfl rfl rfl rfl))
+      split at h
+      · cases h; exact hi.sub (resSub_shutdownNode t s p)
+      · cases h
+        exact hi.sub ((ResSub.of_eq rfl rfl rfl rfl rfl rfl rfl rfl :
+          ResSub s { s with downOpen := upd s.downOpen e false }).trans (resSub_shutdownNode t _ p))
+    · rename_i m rest hout
+      have hpop := resSub_popOutbox s e m rest hout
+      have hi0 : ResInv { s with outbox := upd s.outbox e rest } := hi.sub hpop
+      simp only at h
+      split at h
+      · split at h <;> cases h
+        · exact hi0.sub (resSub_shutdownNode t _ p)
+        · exact hi0.sub (resSub_put _ p _ (by intro d m v x; simp at x))
+      · cases h; exact hi0.sub (resSub_systemError t _ p)
+      · split at h <;> cases h
+        · exact hi0.sub ((resSub_systemError t _ p).trans (ResSub.of_eq rfl rfl rfl rfl rfl rfl rfl rfl))
+        · exact hi0.sub (resSub_put _ p _ (by intro d m v x; simp at x))
+      · rename_i mm v
+        have hc : (mm, v) ∈ s.completed := hi.ob e mm v (by rw [hout]; exact List.mem_cons_self)
+        split at h <;> cases h
+        · exact hi0.handleResult mm v hc
+        · exact hi0.putResult p .up mm v hc (fun c x => by cases x)
+      · split at h <;> cases h
+        · exact hi0.sub (resSub_systemError t _ p)
+        · exact hi0.sub (resSub_put _ p em (okEmits_no_result hem))
+      · rename_i hns _ _ hnr _
+        split at h <;> cases h
+        · exact hi0.sub (resSub_systemError t _ p)
+        · refine hi0.sub (resSub_put _ p _ ?_)
+          intro d mm v x
+          simp only [List.mem_singleton, Prod.mk.injEq] at x
+          exact hnr mm v x.2.symm
+  | recvUp n em f =>
+    simp only [step] at h
+    unfold recvUp at h
+    split at h
+    · cases h
+    rename_i hg
+    simp only [Bool.not_eq_true', Bool.not_eq_false, Bool.and_eq_true] at hg
+    have hem := hg.2
+    split at h
+    · split at h <;> cases h
+      exact hi.sub (ResSub.of_eq rfl rfl rfl rfl rfl rfl rfl rfl)
+    · have hi0 : ResInv { s with inbox := upd s.inbox n ‹List Msg› } :=
+        hi.sub (ResSub.of_eq rfl rfl rfl rfl rfl rfl rfl rfl)
+      simp only at h
+      split at h
+      · cases h; exact hi0.sub (resSub_shutdownNode t _ n)
+      · cases h; exact hi0.sub (resSub_systemError t _ n)
+      · split at h <;> cases h
+        · exact hi0.sub (resSub_systemError t _ n)
+        · exact hi0.sub (resSub_put _ n em (okEmits_no_result hem))
+  | recvClient c em f =>
+    simp only [step] at h
+    unfold recvClient at h
+    split at h
+    · cases h
+    rename_i hg
+    simp only [Bool.not_eq_true', Bool.not_eq_false, Bool.and_eq_true] at hg
+    have hem := hg.2
+    split at h
+    · split at h <;> cases h
+      exact hi.sub (resSub_clientGone t s c em hem)
+    · have hi0 : ResInv { s with toServer := upd s.toServer c ‹List Msg› } :=
+        hi.sub (ResSub.of_eq rfl rfl rfl rfl rfl rfl rfl rfl)
+      simp only at h
+      split at h
+      · cases h; exact hi0.sub (resSub_clientGone t _ c em hem)
+      · cases h; exact hi0.handleSubmit c _ em hem
+      · cases h; exact hi0.handleRequest c _ em hem
+      · split at h <;> cases h
+        · exact hi0.sub (resSub_systemError t _ 0)
+        · exact hi0.sub (resSub_put _ 0 em (okEmits_no_result hem))
+      · cases h; exact hi0.sub (resSub_systemError t _ 0)
+  | flush n =>
+    simp only [step] at h
+    unfold flush at h
+    split at h
+    · cases h
+    split at h
+    · cases h
+    rename_i d m rest hq
+    have hhead : (d, m) ∈ s.outq n := by rw [hq]; exact List.mem_cons_self
+    have hsubq : ResSub s { s with outq := upd s.outq n rest } := by
+      refine ⟨fun _ _ _ x => x, fun i d' m' v' x => ?_, fun m b x => ⟨b, x, rfl, fun _ y => y⟩,
+        fun _ _ _ x => x, fun _ _ _ x => x, fun _ x => x, rfl, rfl⟩
+      simp only [upd_apply] at x
+      split at x
+      · rename_i hi'; subst hi'; rw [hq]; exact List.mem_cons_of_mem _ x
+      · exact x
+    have hi0 := hi.sub hsubq
+    simp only at h
+    split at h
+    · split at h
+      · cases h
+      split at h <;> cases h
+      · refine ⟨fun i mm v x => ?_, hi0.oq, hi0.bx, hi0.tc, hi0.cl, hi0.fresh⟩
+        simp only [upd_apply] at x
+        split at x
+        · rename_i hi'; subst hi'
+          rcases result_mem_append_single x with y | y
+          · exact hi.ob _ mm v y
+          · subst y; exact (hi.oq _ _ mm v hhead).1
+        · exact hi.ob i mm v x
+      · exact hi0
+    · split at h
+      · cases h
+      split at h <;> cases h
+      · exact hi0.sub (ResSub.of_eq rfl rfl rfl rfl rfl rfl rfl rfl)
+      · exact hi0
+    · rename_i c
+      split at h
+      · cases h
+      split at h <;> cases h
+      · refine ⟨hi0.ob, hi0.oq, hi0.bx, fun c' mm v x => ?_, hi0.cl, hi0.fresh⟩
+        simp only [upd_apply] at x
+        split at x
+        · rename_i hi'; subst hi'
+          rcases result_mem_append_single x with y | y
+          · exact hi.tc _ mm v y
+          · subst y
+            obtain ⟨a, b⟩ := hi.oq n _ mm v hhead
+            exact ⟨a, b c' rfl⟩
+        · exact hi.tc c' mm v x
+      · exact hi0
+  | flushDrop n =>
+    simp only [step] at h
+    unfold flushDrop at h
+    split at h
+    · cases h
+    split at h
+    · cases h
+    rename_i d m rest hq
+    split at h <;> cases h
+    refine hi.sub ⟨fun _ _ _ x => x, fun i d' m' v' x => ?_, fun m b x => ⟨b, x, rfl, fun _ y => y⟩,
+      fun _ _ _ x => x, fun _ _ _ x => x, fun _ x => x, rfl, rfl⟩
+    simp only [upd_apply] at x
+    split at x
+    · rename_i hi'; subst hi'; rw [hq]; exact List.mem_cons_of_mem _ x
+    · exact x
+  | wsend w m =>
+    simp only [step] at h
+    unfold wsend at h
+    split at h
+    · cases h
+    split at h <;> cases h
+    · refine hi.sub ⟨fun i mm v x => ?_, fun _ _ _ _ x => x, fun m b x => ⟨b, x, rfl, fun _ y => y⟩,
+        fun _ _ _ x => x, fun _ _ _ x => x, fun _ x => x, rfl, rfl⟩
+      simp only [upd_apply] at x
+      split at x
+      · rename_i hi'; subst hi'
+        rcases result_mem_append_single x with y | y
+        · exact y
+        · cases y
+      · exact x
+    · rename_i mm v
+      refine ⟨fun i m' v' x => ?_, fun i d m' v' x => ?_, fun m' b x => ?_, fun c m' v' x => ?_,
+        fun c m' v' x => ?_, hi.fresh⟩
+      · simp only [upd_apply] at x
+        split at x
+        · rename_i hi'; subst hi'
+          rcases result_mem_append_single x with y | y
+          · exact List.mem_cons_of_mem _ (hi.ob _ m' v' y)
+          · simp only [Msg.result.injEq] at y
+            obtain ⟨rfl, rfl⟩ := y
+            exact List.mem_cons_self
+        · exact List.mem_cons_of_mem _ (hi.ob i m' v' x)
+      · obtain ⟨a, b⟩ := hi.oq i d m' v' x
+        exact ⟨List.mem_cons_of_mem _ a, b⟩
+      · obtain ⟨a, b'⟩ := hi.bx m' b x
+        exact ⟨a, fun v' hv' => List.mem_cons_of_mem _ (b' v' hv')⟩
+      · obtain ⟨a, b⟩ := hi.tc c m' v' x
+        exact ⟨List.mem_cons_of_mem _ a, b⟩
+      · obtain ⟨a, b⟩ := hi.cl c m' v' x
+        exact ⟨List.mem_cons_of_mem _ a, b⟩
+    · refine hi.sub ⟨fun i mm v x => ?_, fun _ _ _ _ x => x, fun m b x => ⟨b, x, rfl, fun _ y => y⟩,
+        fun _ _ _ x => x, fun _ _ _ x => x, fun _ x => x, rfl, rfl⟩
+      simp only [upd_apply] at x
+      split at x
+      · rename_i hi'; subst hi'
+        rcases result_mem_append_single x with y | y
+        · exact y
+        · cases y
+      · exact x
+  | wrecv w =>
+    simp only [step] at h
+    unfold wrecv at h
+    split at h
+    · cases h
+    split at h
+    · split at h <;> cases h
+      exact hi.sub (ResSub.of_eq rfl rfl rfl rfl rfl rfl rfl rfl)
+    · simp only at h
+      split at h <;> cases h <;> exact hi.sub (ResSub.of_eq rfl rfl rfl rfl rfl rfl rfl rfl)
+  | ccall c r =>
+    simp only [step] at h
+    unfold ccall at h
+    split at h
+    · cases h
+    have clr : ∀ s1 : State, s1.outbox = s.outbox → s1.outq = s.outq → s1.boxes = s.boxes →
+        s1.toClient = upd s.toClient c [] → (∀ c' m v, CEv.returned c' (.result m v) ∈ s1.clog →
+          CEv.returned c' (.result m v) ∈ s.clog) → s1.completed = s.completed →
+        s1.owner = s.owner → s1.counter = s.counter → ResSub s s1 := by
+      intro s1 h1 h2 h3 h4 h5 h6 h7 h8
+      refine ⟨fun i m v x => by rw [← h1]; exact x, fun i d m v x => by rw [← h2]; exact x,
+        fun m b x => ⟨b, by rw [← h3]; exact x, rfl, fun _ y => y⟩, fun c' m v x => ?_, h5,
+        fun x y => by rw [h6]; exact y, h7, h8⟩
+      rw [h4] at x
+      simp only [upd_apply] at x
+      split at x
+      · cases x
+      · exact x
+    split at h
+    · cases h
+      refine hi.sub ⟨fun _ _ _ x => x, fun _ _ _ _ x => x, fun m b x => ⟨b, x, rfl, fun _ y => y⟩,
+        fun _ _ _ x => x, fun c' m v x => ?_, fun _ x => x, rfl, rfl⟩
+      rcases List.mem_append.mp x with y | y
+      · exact y
+      · simp at y
+    split at h <;> cases h
+    · refine hi.sub (clr _ rfl rfl rfl rfl (fun c' m v x => ?_) rfl rfl rfl)
+      rcases List.mem_append.mp x with y | y
+      · exact y
+      · simp at y
+    · exact hi.sub (clr _ rfl rfl rfl rfl (fun _ _ _ x => x) rfl rfl rfl)
+  | cwake c =>
+    simp only [step] at h
+    unfold cwake at h
+    split at h
+    · cases h
+    split at h
+    · cases h
+    have clr : ∀ s1 : State, s1.outbox = s.outbox → s1.outq = s.outq → s1.boxes = s.boxes →
+        s1.toClient = upd s.toClient c [] → (∀ c' m v, CEv.returned c' (.result m v) ∈ s1.clog →
+          CEv.returned c' (.result m v) ∈ s.clog) → s1.completed = s.completed →
+        s1.owner = s.owner → s1.counter = s.counter → ResSub s s1 := by
+      intro s1 h1 h2 h3 h4 h5 h6 h7 h8
+      refine ⟨fun i m v x => by rw [← h1]; exact x, fun i d m v x => by rw [← h2]; exact x,
+        fun m b x => ⟨b, by rw [← h3]; exact x, rfl, fun _ y => y⟩, fun c' m v x => ?_, h5,
+        fun x y => by rw [h6]; exact y, h7, h8⟩
+      rw [h4] at x
+      simp only [upd_apply] at x
+      split at x
+      · cases x
+      · exact x
+    split at h
+    · cases h; exact hi.sub (clr _ rfl rfl rfl rfl (fun _ _ _ x => x) rfl rfl rfl)
+    · cases h
+      refine hi.sub (clr _ rfl rfl rfl rfl (fun c' m v x => ?_) rfl rfl rfl)
+      rcases List.mem_append.mp x with y | y
+      · exact y
+      · simp at y
+    · rename_i r hra
+      cases h
+      have hmem := recvAll_returned _ _ _ _ hra
+      have hr : r ∈ s.toClient c := by
+        rcases hmem with y | y
+        · exact y
+        · cases y
+      have h0 : ResInv { s with toClient := upd s.toClient c [], cwait := upd s.cwait c false } :=
+        hi.sub (clr _ rfl rfl rfl rfl (fun _ _ _ x => x) rfl rfl rfl)
+      refine ⟨h0.ob, h0.oq, h0.bx, h0.tc, fun c' m v x => ?_, h0.fresh⟩
+      rcases List.mem_append.mp x with y | y
+      · exact hi.cl c' m v y
+      · simp only [List.mem_singleton, CEv.returned.injEq] at y
+        obtain ⟨rfl, rfl⟩ := y
+        exact hi.tc c' m v hr
+
+theorem run_resInv {t : Topo} : ∀ (ls : List Label) (s sf : State), ResInv s → run t s ls = some sf →
+    ResInv sf := by
+  intro ls
+  induction ls with
+  | nil => intro s sf hi h; simp only [run, Option.some.injEq] at h; subst h; exact hi
+  | cons l ls ih =>
+    intro s sf hi h
+    simp only [run] at h
+    cases hs : step t s l with
+    | none => simp [hs] at h
+    | some s1 => simp only [hs] at h; exact ih s1 sf (step_resInv hi hs) h
 
 end BqVerif.Crash
